@@ -7,7 +7,7 @@ import sys
 from . import census
 from .hostmodel import CALL_KINDS, cfg_type, cfg_syntax
 from .util import canon, sha
-from .world import Host
+from .world import Host, jcopy
 
 BASE_RECURSION_LIMIT = 6000
 
@@ -289,7 +289,9 @@ class Run:
         w = self.word(j)
         if kind == 'stylesheet':
             return 'm%d+%s+p%d-%s+c#%03x+y%s:%s+w%d%s' % (j % 50, w, j % 7, w, j % 4096, w, w, j % 90, w)
-        return 'ul.l%s>li.i%s*2>a[title=%s data-%s]{t %s}+%s' % (w, w, w, w, w, w)
+        # (a distinct name in every syntactic position: tag, class, BEM element/modifier with and without a block,
+        #  id, attribute name and value, boolean attribute, text, namespace, variable-looking text)
+        return 'p.-o%s._m%s#d%s+ul.l%s>li.i%s*2>a[title=%s data-%s]{t %s}+%s+p.-e%s._n%s+x%s:y%s[b%s.]{${%s}}' % ((w,) * 14 + ('lang',))
 
     def do_soak(self, i, op):
         """warm + seg + seg calls with pairwise DISTINCT abbreviations on one config; what the library
@@ -301,10 +303,19 @@ class Run:
         warm, seg = int(op.get('warm', 100)), int(op.get('seg', 1100))
         marks = []
         j = 0
+        fresh = bool(op.get('fresh_cfg'))
         for upto in (warm, warm + seg, warm + 2 * seg):
             while j < upto:
-                outcome, info = host.call({'op': 'call', 'cfg': op['cfg'], 'abbr': self.soak_abbr(kind, j), 'pin': 0}, None)
+                cid = op['cfg']
+                if fresh:
+                    # a host that builds a new config (own dicts, own callback objects, own Config instance) for
+                    # every call and drops it afterwards: nothing of it may stay alive inside the library
+                    cid = '~soak'
+                    host.add_config(cid, dict(jcopy(h.spec), id=cid))
+                outcome, info = host.call({'op': 'call', 'cfg': cid, 'abbr': self.soak_abbr(kind, j), 'pin': 0}, None)
                 del outcome
+                if fresh:
+                    del host.cfgs[cid]
                 j += 1
             inst, pay, _alive = census.instance_census(_roots(host))
             marks.append((inst, pay, census.container_census()))
